@@ -11,7 +11,7 @@ from __future__ import annotations
 import itertools
 
 from .. import qast as Q
-from ..common import (X, leaves_single, REPRESENTATIVE_4, REPRESENTATIVE_8, to_fn_form, root_kind, grid_world,
+from ..common import (X, L, leaves_single, REPRESENTATIVE_4, REPRESENTATIVE_8, to_fn_form, root_kind, grid_world,
                       eval_entity, eval_entity_after_partial, diff_lists, labels, is_exc)
 from ..isolate import run_isolated
 from ..space import trees_by_depth
@@ -53,6 +53,26 @@ def cases(tier, inst):
             yield (t, "letgen", "op")
         if t[0] == "and":
             yield (t, "let", "multi")
+    # ONE comparison / membership object written once (c = x.p > 1) and used in several places of the condition (no
+    # negation, see above)
+    for a, b in itertools.permutations(REPRESENTATIVE_8[:6] if tier == "thorough" else REPRESENTATIVE_4, 2):
+        if a[0] not in ("cmp", "in", "has"):
+            continue
+        for t in (("or", a, ("and", a, b)), ("and", ("or", a, b), a), ("or", b, ("and", a, a)), ("and", a, ("or", b, a)),
+                  ("or", ("and", a, b), a), ("and", a, a), ("or", a, a)):
+            yield (t, "let", "sharedc")
+    # conditions that mention no variable: a membership test between two constants, a plain Python bool (the signatures of
+    # entity / an / and_ / or_ accept `bool`) - alone next to a real condition, and inside and_ / or_ on either side
+    consts = [("in", L(3), L((1, 2, 3))), ("in", L(5), L((1, 2, 3))), ("has", L((1, 2)), L(2)), ("const", "True"), ("const", "False")]
+    for k in consts:
+        for a in REPRESENTATIVE_4:
+            yield (("andf", a, k), "let", "multi")
+            yield (("andf", k, a), "let", "multi")
+            for form in ("andf", "orf"):
+                yield ((form, a, k), "let", "op")
+                yield ((form, k, a), "let", "op")
+            if k[0] != "const":
+                yield (("or", ("and", a, k), REPRESENTATIVE_4[0]), "let", "op")
     # three operands given to and_() / or_() / entity()
     for a, b, c in itertools.product(REPRESENTATIVE_8 if tier == "thorough" else REPRESENTATIVE_4, repeat=3):
         yield (("andf", a, b, c), "let", "op")
@@ -86,11 +106,12 @@ def run_case(case, inst):
 
     def body():
         world = build_world(WSPEC, inst)
-        got = eval_entity(q, world, inst, share_terms=(case[2] == "shared"))
+        got = eval_entity(q, world, inst, share_terms=(case[2] == "shared"), share_conds=(case[2] == "sharedc"))
         exp = [env["x"] for env in Q.Ref(world, inst).solutions(q)]
         # built afresh on a fresh world: a FIRST evaluation closed after two results, then evaluated fully, twice
         world2 = build_world(WSPEC, inst)
-        later = eval_entity_after_partial(q, world2, inst, share_terms=(case[2] == "shared"))
+        later = eval_entity_after_partial(q, world2, inst, share_terms=(case[2] == "shared"),
+                                          share_conds=(case[2] == "sharedc"))
         exp2 = [env["x"] for env in Q.Ref(world2, inst).solutions(q)]
         return got, exp, len(world["D"]), later, exp2
 
